@@ -920,3 +920,6 @@ ASSUMPTIONS = [
 ]
 TRUSTED = ["rustc nightly type checker, MIR construction and callee resolution", "nsx exporter faithfulness", "nsverif dominator/edge-dominance implementation"]
 NONTRIVIAL = "one obligation per panic site / unchecked access / argument index; distinct = distinct structural key (function | kind | constraint signature | ordinal)"
+EXPLANATION += (
+    " Round 6: R5's discharge is order-independent (see C04-R10); R11 also shares C03-R4g; R13 shares C08-R2 / R3 (the data-depth limit times the fattest unprobed frame fits the stack)."
+)
